@@ -45,6 +45,8 @@ var (
 	_ bungeecord.ServerConnection = (*bungeeServer)(nil)
 	_ bungeecord.Server           = (*bungeeServer)(nil)
 	_ bungeecord.Providers        = (*bungeeMessageResponderAdapter)(nil)
+
+	_ bungeecord.PlayerServerConnectionProvider = (*bungeeMessageResponderAdapter)(nil)
 )
 
 func (s *bungeeServer) PlayerCount() int {
@@ -144,7 +146,17 @@ func (b *bungeeMessageResponderAdapter) Servers() []bungeecord.Server {
 	return bungeeServers
 }
 func (b *bungeeMessageResponderAdapter) ConnectedServer() bungeecord.ServerConnection {
-	server := b.player.connectedServer()
+	return b.connectedServerOf(b.player)
+}
+func (b *bungeeMessageResponderAdapter) ConnectedServerOf(player bungeecord.Player) bungeecord.ServerConnection {
+	p, ok := player.(*connectedPlayer)
+	if !ok || p == nil {
+		return nil
+	}
+	return b.connectedServerOf(p)
+}
+func (b *bungeeMessageResponderAdapter) connectedServerOf(player *connectedPlayer) bungeecord.ServerConnection {
+	server := player.connectedServer()
 	if server == nil {
 		return nil
 	}
